@@ -126,6 +126,11 @@ Definition setid1 (u id : Z) (ext : option bool) (f : frame) : frame :=
   else f.
 Definition m_set_id (m : matrix) (u id : Z) (ext : option bool) : matrix :=
   mkMatrix (map (setid1 u id ext) (m_frames m)) (m_ecus m) (m_memo m) (map (setid1 u id ext) (m_dead m)).
+(* frame.header_id = h (a frame re-numbered during an edit history; h = None: the attribute is cleared) *)
+Definition sethdr1 (u : Z) (h : option Z) (f : frame) : frame :=
+  if f_uid f =? u then mkFrame (f_uid f) (f_id f) (f_ext f) (f_name f) h (f_j1939 f) else f.
+Definition m_set_hdr (m : matrix) (u : Z) (h : option Z) : matrix :=
+  mkMatrix (map (sethdr1 u h) (m_frames m)) (m_ecus m) (m_memo m) (map (sethdr1 u h) (m_dead m)).
 (* add_ecu ~2206: nothing when an ECU of that name exists, else append and memo = {} *)
 Definition m_add_ecu (m : matrix) (e : Z) : matrix :=
   if existsb (Z.eqb e) (m_ecus m) then m
@@ -226,7 +231,8 @@ Inductive op :=
 | FrameById (i : nat) (id : Z) (ext : bool)
 | FrameByName (i : nat) (n : Z)
 | FrameByPgn (i : nat) (p : Z)
-| FrameByHeaderId (i : nat) (h : Z).
+| FrameByHeaderId (i : nat) (h : Z)
+| SetHeaderId (i : nat) (u : Z) (h : option Z).                          (* obj.header_id = h *)
 
 (* an operation on matrix i that needs nothing else *)
 Definition on_mat (w : world) (i : nat) (f : matrix -> matrix * result) : world * result :=
@@ -264,6 +270,7 @@ Definition step (w : world) (o : op) : world * result :=
   | FrameByName i n => on_mat w i (fun m => (m, RFound (option_map f_uid (scan_name n (m_frames m)))))
   | FrameByPgn i p => on_mat w i (fun m => (m, pgn_out (frame_by_pgn p (map to_fr (m_frames m)))))
   | FrameByHeaderId i h => on_mat w i (fun m => (m, RFound (option_map f_uid (scan_hdr h (m_frames m)))))
+  | SetHeaderId i u h => on_mat w i (fun m => (m_set_hdr m u h, RUnit))
   end.
 
 (* histories *)
@@ -310,7 +317,7 @@ Definition op_target (o : op) : option nat :=
   | NewMatrix => None
   | AddFrame i _ _ _ _ _ | FramesAppend i _ _ _ _ _ | RemoveFrame i _ | DelFrameUid i _ | DelFrameName i _
   | RenameFrame i _ _ | SetFrameId i _ _ _ | SetIdInplace i _ _ | ChangeFrameId i _ _ _ | AddEcu i _
-  | FrameById i _ _ | FrameByName i _ | FrameByPgn i _ | FrameByHeaderId i _ => Some i
+  | FrameById i _ _ | FrameByName i _ | FrameByPgn i _ | FrameByHeaderId i _ | SetHeaderId i _ _ => Some i
   | CopyFrame _ dst _ _ => Some dst
   | Merge dst _ => Some dst
   end.
